@@ -69,7 +69,33 @@ class TreeSpace(statespace.Space):
     return False
 
 
+def sort_fail_item(rec, mode):
+  """A sort whose key comparisons fail half-way (after elements were moved): indices and paths must still agree."""
+  for prios in ([1, 2, 0, None], [2, 1, 0, None, 3], [0, 1, None, 2]):
+    root = pg.Dict(l=pg.List([pg.Dict(prio=p, sub=pg.List([pg.Dict(z=i)])) for i, p in enumerate(prios)]))
+    rec.evals += 1
+    rec.trans += 1
+    try:
+      if mode == 'nonotify':
+        with pg.notify_on_change(False):
+          root.l.sort(key=lambda e: e.prio)
+      else:
+        root.l.sort(key=lambda e: e.prio)
+      out = 'ok'
+    except TypeError:
+      out = 'TypeError'
+    order = [e.prio for e in root.l]
+    bad = st.check_topology([root])
+    tr = dict(kind='sort-fail', mode=mode)
+    if bad:
+      clause, text = bad[0]
+      rec.viol(f'{clause}/List.sort-raises' + (f'[{mode}]' if mode else ''), f'sort(key=prio) on priorities {prios!r} ended with {out} and order {order!r}: {text}', tr)
+    else:
+      rec.nt(('sort-fail', mode, repr(prios), out, repr(order)))
+
+
 def run(ctx):
+  ctx.pmap(sort_fail_item, ['', 'nonotify'], chunk=1)
   ctx.rule = ('explicit-state BFS over forests of real pg.Dict/pg.List/pg.Object nodes: every enabled mutating/copying '
               'operation at every node (addressed by key sequence) with every value of the menu (leaves, fresh plain and '
               'symbolic containers, existing nodes of either tree, detached nodes, MISSING) is executed on fresh objects '
@@ -102,6 +128,8 @@ def run(ctx):
 
 
 def replay(rec, data):
+  if data.get('kind') == 'sort-fail':
+    return sort_fail_item(rec, data['mode'])
   sp = TreeSpace([tuple(data['init'])], (), max_nodes=99)
   data = dict(data, init=tuple(data['init']))
   statespace.replay_trace(sp, rec, data)
